@@ -18,6 +18,11 @@ def graph_of_prefix(ctx, lines):
 def audit_log(ctx, st, pre_bytes, results, agents, epic, trace):
     """from the final log: every winner was handed the head of the ready list of the log just before its claim line"""
     data = st.log_bytes()
+    if not pre_bytes.endswith(b"\n"):
+        # the store ended in the fragment of a killed writer: the first claimer that writes drops it (the fragments injected are never whole events)
+        pre_bytes = pre_bytes[:pre_bytes.rfind(b"\n") + 1]
+        if not any(r_["exit"] == 0 and json.loads(r_["stdout"]).get("status") != "no_ready" for r_ in results):
+            return False          # nobody wrote: the fragment is still there and there is nothing to audit
     if not data.startswith(pre_bytes):
         ctx.violation("C01 log rewritten during claims", "the log no longer starts with its previous content", {"trace": trace}); return True
     lines = data.splitlines(keepends=True)
@@ -63,8 +68,8 @@ def audit_log(ctx, st, pre_bytes, results, agents, epic, trace):
     return False
 
 
-def parked_schedules(ctx, r, big=0):
-    base, v, trace = crash.build_state(ctx, r, 6 + r.n(8), weights={"new_task": 50, "new_epic": 8, "set": 14, "sequence": 14, "plan": 6}, big=big)
+def parked_schedules(ctx, r, big=0, torn=False):
+    base, v, trace = crash.build_state(ctx, r, 6 + r.n(8), weights={"new_task": 50, "new_epic": 8, "set": 14, "sequence": 14, "plan": 6}, big=big, torn=torn)
     try:
         pre = base.graph()
         if "err" in pre:
@@ -74,8 +79,12 @@ def parked_schedules(ctx, r, big=0):
         rc, _, _, steps = strace.run(crash.clone(base), ["--json", "--agent", "probe", "claim"] + eargs)
         prog = strace.summarize(steps)
         ready = oracles.ready_order(pre["graph"], epic)
-        if prog != CLAIM_PROGRAM and ready:
-            ctx.tie_broken("T3 claim program", {"observed": prog, "expected": CLAIM_PROGRAM}); 
+        sh = strace.shape(ctx.model, steps)
+        ctx.count(1, key=("T3-shape", tuple(sh["abstract"])))
+        # on a clean log the program is known call for call; on a torn one it also carries the tail repair — in both cases it must be a lock section
+        # in the sense of ErgoModel.Program.writerOK (everything that changes the log after a read, inside the lock, one write to the live file)
+        if ready and (not sh["writer"] or (not torn and prog != CLAIM_PROGRAM)):
+            ctx.tie_broken("T3 claim program", {"observed": prog, "expected": CLAIM_PROGRAM, "writerOK": sh["writer"], "abstract": sh["abstract"]}); 
         pts = strace.kill_points(steps)
         for k in range(2, len(pts)):          # from just after the flock to just before the unlock returns
             c = crash.clone(base)
@@ -109,8 +118,8 @@ def parked_schedules(ctx, r, big=0):
         base.close()
 
 
-def free_running(ctx, r):
-    base, v, trace = crash.build_state(ctx, r, 8 + r.n(10), weights={"new_task": 60, "new_epic": 6, "set": 10, "sequence": 12, "plan": 6})
+def free_running(ctx, r, torn=False):
+    base, v, trace = crash.build_state(ctx, r, 8 + r.n(10), weights={"new_task": 60, "new_epic": 6, "set": 10, "sequence": 12, "plan": 6}, torn=torn)
     try:
         n = 2 + r.n(5)
         pre_bytes = base.log_bytes()
@@ -133,9 +142,9 @@ def run(ctx):
         ctx.tie_broken("T2-fn readyTasks", {"first_difference": fndiff.first_difference(d["go"], d["model"])})
     r = gen.Rng(ctx.seed * 1000003 + 1)
     for i in range(4 if ctx.quick else 60):
-        parked_schedules(ctx, r.fork(), big=(250 if i % 2 == 0 else 0))      # large logs make the Go runtime collect inside the lock section
+        parked_schedules(ctx, r.fork(), big=(250 if i % 2 == 0 else 0), torn=(i % 4 == 3))      # large logs make the Go runtime collect inside the lock section
     for i in range(12 if ctx.quick else 300):
-        free_running(ctx, r.fork())
+        free_running(ctx, r.fork(), torn=(i % 3 == 1))          # every third on a log that ends in the fragment of a killed writer
     # a claimer against every other kind of writer (compact and plan replace the log file, prune and set change what is ready), also on a
     # store whose log still has the legacy name: the claim must land in the log every reader reads, and the reply must be true
     for i in range(6 if ctx.quick else 120):
